@@ -17,7 +17,8 @@ HARNESSES[name] = dict(
 DEFAULT_LOOPS = [
     (r"verif_kani::model::mix", 260),       # UF table scan (table mode): trip count is concrete, cap = UF_CAP + margin
     (r"verif_kani::vk::any_bytes", 200),
-    (r"vk::elementwise_copy", 200),         # stub of <[u8]>::copy_from_slice (concrete trip counts <= 117)    # filling a symbolic buffer (concrete trip count N <= 181)
+    (r"vk::elementwise_copy", 200),
+    (r"vk::ga_clone_from_slice", 200),      # stub of GenericArray::clone_from_slice (concrete trip counts <= 117)         # stub of <[u8]>::copy_from_slice (concrete trip counts <= 117)    # filling a symbolic buffer (concrete trip count N <= 181)
 ]
 
 COMMON_ASSUMPTIONS = [
@@ -50,6 +51,17 @@ H("lemma_hkdf_pad42", "h_lemmas::lemma_hkdf_pad42", "RFC 5869 Expand == hkdf cra
   "prk 8, info 32+21 bytes, 42 output bytes (6 blocks)", covers=["reached"], lemma=True)
 
 H("engine_selftest_ga_copy", "h_lemmas::engine_selftest_ga_copy", "engine self-test: partial copies into GenericArray<u8,N> land where they should (guards against the CBMC memcpy defect described in DESIGN.md)", "20 (size, offset, length) combinations incl. the two that fail with CBMC's library memcpy", covers=["reached"], lemma=True)
+
+H("lemma_spec_honest_agreement", "h_lemmas::lemma_spec_honest_agreement",
+  "R1: the composed RFC 9807 reference steps agree: same randomized password, export key, server public key, MACs accepted, equal session keys",
+  "password 2, credential id 2, context 2 bytes, client identity absent / 2 bytes, all nonces and keys symbolic; blinds 3 and 5",
+  covers=["agreement"], lemma=True, timeout=2400, mem_gb=16, also_depends=["spec_steps.rs"])
+H("lemma_spec_prefix_injective", "h_lemmas::lemma_spec_prefix_injective",
+  "R2: the 2-byte-length-prefixed encoding of (context, id_u, id_s) is injective", "all splits of 6 symbolic bytes", covers=["different splits"], lemma=True)
+
+H("lemma_stub_clone_from_slice", "h_lemmas::lemma_stub_clone_from_slice",
+  "the element-wise stub of GenericArray::clone_from_slice equals the original (which is not stubbed in this harness)",
+  "sizes 1, 2, 8, 32, 34, 40, 42, symbolic contents", covers=["reached"], lemma=True)
 
 # ---- S1
 H("c03_server_finish_exact", "h_c03::c03_server_finish_exact",
@@ -91,6 +103,10 @@ H("s7_oprf_key_from_seed", "verif_kani_opaque::s7_oprf_key_from_seed",
   "oprf_key_from_seed == DeriveKeyPair(Expand(seed, cred_id || 'OprfKey', Nok), 'OPAQUE-DeriveKeyPair')",
   "seed 8 bytes, credential identifier 0..=2 bytes, all symbolic",
   covers=["reached"], loops=[(r"derive_key", 2)])
+
+H("s7_oprf_key_from_seed_long_cred", "verif_kani_opaque::s7_oprf_key_from_seed_long_cred",
+  "same with credential identifiers of 9 and 20 bytes (longer than the hash output and than a hash block): no truncation",
+  "seed 8 bytes, credential identifier 9 / 20 symbolic bytes", covers=["reached"], loops=[(r"derive_key", 2)])
 
 # ---- S12
 H("s12_i2osp_all_usize", "h_inputs::s12_i2osp_all_usize", "I2OSP(n,1)/I2OSP(n,2): Ok <=> n fits, big-endian value", "every usize n",
@@ -148,6 +164,18 @@ H("s9_seal_raw", "verif_kani_envelope::s9_seal_raw", "Envelope::seal_raw: auth_t
   covers=["reached"], loops=SLICE_LOOPS, timeout=1800, mem_gb=12)
 H("s9_construct_aad_order", "verif_kani_envelope::s9_construct_aad_order", "construct_aad yields server_pk, id_s, id_u in this order", "symbolic parts", covers=["reached"], loops=SLICE_LOOPS)
 
+H("s9_keys_internal", "verif_kani_envelope::s9_keys_internal", "build_inner_envelope_internal / recover_keys_internal: client key pair = DeriveDiffieHellmanKeyPair(Expand(rpwd, nonce||'PrivateKey'))",
+  "every randomized_pwd and nonce", covers=["reached"], loops=KEYLOOPS, timeout=1800, mem_gb=12)
+ENVDEP = dict(also_depends=["w_stubs.rs"])
+for n, d in (("default_ids", "identities absent"), ("explicit_ids", "client 2 bytes, server 1 byte"), ("server_only", "only an (empty) server identity"), ("client_only", "only a 1-byte client identity")):
+    H("s9w_seal_" + n, "verif_kani_envelope::s9w_seal_" + n,
+      "Envelope::seal == RFC 9807 Store (helpers stubbed by their proved references): nonce = 32 fresh RNG bytes, identity defaulting, tag over nonce||server_pk||len||id_s||len||id_u, client key, export key",
+      d + "; randomized_pwd, server key, identities, tape symbolic", covers=["reached"], loops=SLICE_LOOPS + KEYLOOPS + [(r"drain_aad", 40)], timeout=1800, mem_gb=12, **ENVDEP)
+for n, d in (("default_ids", "identities absent"), ("explicit_ids", "client 2 bytes, server 1 byte"), ("client_empty", "explicit empty client identity"), ("server_only", "only a 2-byte server identity")):
+    H("s9w_open_" + n, "verif_kani_envelope::s9w_open_" + n,
+      "Envelope::open == RFC 9807 Recover (helpers stubbed): Ok <=> tag over nonce||server_pk||identities matches; recovered key pair, export key, effective identities handed on; else SealOpenHmacError",
+      d + "; randomized_pwd, server key, identities, 40-byte envelope symbolic", covers=["opened", "rejected"], loops=SLICE_LOOPS + KEYLOOPS + [(r"drain_aad", 40)], timeout=1800, mem_gb=12, **ENVDEP)
+
 # ---- S10 / S11 (tripledh.rs)
 H("s11_derive_3dh_keys", "verif_kani_tripledh::s11_derive_3dh_keys",
   "derive_3dh_keys == RFC 9807 DeriveKeys: Extract(dh1||dh2||dh3), Expand-Label HandshakeSecret/SessionKey with Hash(preamble), ServerMAC/ClientMAC",
@@ -179,7 +207,7 @@ G("g4_ristretto_sk_decode", "g_ristretto", "ristretto255 deserialize_sk: Ok <=> 
 G("g4_ristretto_lengths_identity", "g_ristretto", "ristretto255 keys of length != 32 refused; identity public key refused", "lengths 0..=64", ["reached"])
 G("g5_p256_sk_decode", "g_nist", "P-256 deserialize_sk: Ok <=> 0 < v < n; re-encodes to the input", "all 2^256 strings", ["ok", "err"], timeout=1800, mem_gb=16)
 G("g6_p256_pk_unknown_tags", "g_nist", "P-256 deserialize_pk refuses every SEC1 tag outside {0,2,3,4,5}", "33-byte strings, tag and x symbolic", ["reached"], timeout=1800, mem_gb=16)
-G("g6_p256_pk_tag_cases", "g_nist", "P-256 deserialize_pk with tags 0/2/3/4/5 and the generator's x: accepted => re-encodes to the input", "5 tags x concrete valid x", ["ok", "err"], timeout=2400, mem_gb=24)
+G("g6_p256_pk_tag_cases", "g_nist", "P-256 deserialize_pk with tags 0/2/3/4/5 and the generator's x: accepted => re-encodes to the input; tags 0, 4, 5 refused", "5 tags x concrete valid x", ["ok", "err"], timeout=2400, mem_gb=24, loops=[(r"sqn|pow|invert", 300)])
 
 # ---- W: wiring harnesses (real step functions; private units replaced by reference stubs proved equal in S6-S9; recording key exchange)
 WDEP = dict(also_depends=["w_stubs.rs", "spec_steps.rs"])
@@ -202,8 +230,109 @@ for n in ("external_key", "external_key_unregistered"):
       "ServerLogin::start with an externally held static key: same response/state; exactly one public_key and one diffie_hellman call; key never serialized; failure at either call => the key's own Custom error, no response",
       "failure at call 0(never)/1/2/3", covers=["ok", "public_key failure", "diffie_hellman failure"], loops=DRAIN + KEYLOOPS, timeout=2400, mem_gb=20, **WDEP)
 
+# ---- C12 tier: the same harnesses with CBMC's pointer / bounds / division checks on (Rust's own panic checks are
+# always on): no reachable panic, unwrap on None/Err, unreachable!, overflow, out-of-bounds, invalid pointer
+C12_SET = ["d_reg_req", "d_reg_resp", "d_client_reg", "d_cred_fin", "d_setup", "d_setup_xk", "d_server_login", "d_cred_req",
+           "c03_server_finish_exact", "s12_i2osp_all_usize", "s12_input_from_all_lengths", "s12_input_from_label",
+           "s12_identifiers_defaulting", "s13_dummy_record", "s2_client_reg_start_pw2", "s6_pwd_too_long", "s4_server_reg_start_cred2"]
+C12_T = ["d_reg_upload", "d_cred_resp", "d_client_login", "d_all_reg_req", "d_all_reg_resp", "d_all_cred_fin", "d_all_setup", "d_all_client_reg",
+         "d_all_server_login", "s3_client_login_start_pw2", "s5_server_setup_new", "g1_x25519_sk_decode", "g2_x25519_pk_roundtrip", "g5_p256_sk_decode"]
+for n in C12_SET + C12_T:
+    d = dict(HARNESSES[n])
+    d["default_checks"] = True
+    d["what"] = "[all CBMC memory-safety checks on] " + d["what"]
+    HARNESSES["c12_" + n] = d
+
+W1 = ["w1_client_reg_finish_default_ids", "w1_client_reg_finish_explicit_ids", "w1_client_reg_finish_mixed_ids"]
+W2 = ["w2_server_login_start_record", "w2_server_login_start_record_ids_ctx", "w2_server_login_start_unregistered", "w2_server_login_start_unregistered_ids_ctx"]
+W2X = ["w2_server_login_start_external_key", "w2_server_login_start_external_key_unregistered"]
+W3 = ["w3_client_login_finish_default_ids", "w3_client_login_finish_explicit_ids_ctx", "w3_client_login_finish_mixed_ids"]
+S9W = ["s9w_seal_default_ids", "s9w_seal_explicit_ids", "s9w_seal_server_only", "s9w_seal_client_only",
+       "s9w_open_default_ids", "s9w_open_explicit_ids", "s9w_open_client_empty", "s9w_open_server_only"]
+S9U = ["s9_open_raw_exact", "s9_seal_raw", "s9_construct_aad_order", "s9_keys_internal"]
+S10 = ["s10_generate_ke2_ctx0_default_ids", "s10_generate_ke2_ctx2_explicit_idu", "s10_generate_ke3_ctx0_default_ids", "s10_generate_ke3_ctx2_explicit_idu"]
+S6 = ["s6_pwd_key_len3", "s6_pwd_key_len0", "s6_default_explicit_eq_none", "s6_pwd_too_long"]
+S12 = ["s12_i2osp_all_usize", "s12_input_from_all_lengths", "s12_input_from_label", "s12_identifiers_defaulting"]
+LEMMAS = ["lemma_hash_eq", "lemma_hmac_eq", "lemma_hkdf_eq", "lemma_hkdf_pad42", "lemma_stub_clone_from_slice", "engine_selftest_ga_copy"]
+SELF = ["engine_selftest_ga_copy"]
+CRYPTO_NOTE = "the 'mismatch => reject / different => unrelated' halves of this property are computational (collision resistance, MAC unforgeability) and are not decided: what is decided is that the implementation takes exactly the RFC's decision and feeds exactly the RFC's bytes into every hash, for every input within the bounds"
+
+PROPERTIES["C01"] = dict(
+    quick=SELF + ["s2_client_reg_start_pw2", "s3_client_login_start_pw2", "s4_server_reg_start_cred2", "c03_server_finish_exact",
+                  "w1_client_reg_finish_default_ids", "w2_server_login_start_record", "w3_client_login_finish_default_ids"],
+    thorough=["lemma_spec_honest_agreement", "s2_client_reg_start_pw0", "s3_client_login_start_pw0", "s4_server_reg_start_cred0"] + W1[1:] + W2[1:] + W3[1:]
+             + S6[:2] + ["s7_oprf_key_from_seed", "s8_mask_response", "s8_unmask_response"] + S9U + S9W + S10 + ["s11_derive_3dh_keys"] + LEMMAS,
+    assumptions=["each of the eight public steps equals the RFC 9807 step from an arbitrary valid state (S2-S4, S1, W1-W3 with the crate-private units replaced by references proved equal in S6-S11); honest agreement of the composed reference is lemma R1; the algebra of the 20 real suites (DH commutes, unblinding inverts blinding) is not encoded",
+                 "production build: the harnesses compile opaque-ke without cfg(test), so the production blind() branch and result tuples are what is executed"])
+PROPERTIES["C02"] = dict(
+    quick=SELF + S6[:2] + ["s6_pwd_too_long", "s2_client_reg_start_pw2", "w3_client_login_finish_default_ids"],
+    thorough=W3[1:] + ["s3_client_login_start_pw0", "s3_client_login_start_pw2", "s8_unmask_response", "s9_open_raw_exact"] + S9W[4:] + S10[2:] + ["lemma_hmac_eq"],
+    assumptions=[CRYPTO_NOTE, "passwords of 0..3 bytes symbolically; the 65536-byte refusal separately; other lengths are outside the bound"])
 PROPERTIES["C03"] = dict(
-    quick=["c03_server_finish_exact", "d_cred_fin", "d_server_login"],
+    quick=SELF + ["c03_server_finish_exact", "d_cred_fin", "d_server_login"],
     thorough=["lemma_hmac_eq", "d_all_cred_fin", "d_all_server_login"],
-    assumptions=["C03's 'finalization from another session is rejected' reduces to: the server accepts exactly HMAC(km3, transcript hash) of its own pending state — proved for every state and every byte string; that another session's MAC differs is unforgeability of HMAC (not decided)"],
-)
+    assumptions=["the server accepts exactly HMAC(km3, transcript hash) of its own pending state — proved for every 24-byte state and every 8-byte finalization; that another session's MAC differs is unforgeability of HMAC (not decided)"])
+PROPERTIES["C04"] = dict(
+    quick=SELF + ["w3_client_login_finish_default_ids", "d_cred_resp", "s9_open_raw_exact"],
+    thorough=S10[2:] + ["s8_unmask_response"] + W3[1:] + S9W[4:] + ["lemma_spec_prefix_injective"],
+    assumptions=[CRYPTO_NOTE])
+PROPERTIES["C05"] = dict(
+    quick=SELF + S12 + ["s9_construct_aad_order", "s7_oprf_key_from_seed", "s10_expand_label_limits", "lemma_spec_prefix_injective"],
+    thorough=["s7_oprf_key_from_seed_long_cred"] + S9W + S10 + W2 + W3,
+    assumptions=[CRYPTO_NOTE, "identity/context contents of 0..2 bytes in the step harnesses; every length 0..131073 for the length-prefix functions"])
+PROPERTIES["C06"] = dict(
+    quick=SELF + ["s4_server_reg_start_cred0", "w1_client_reg_finish_default_ids", "w2_server_login_start_record", "s9_open_raw_exact", "s9w_open_default_ids"],
+    thorough=W3 + S9W + ["s8_mask_response", "s8_unmask_response"],
+    assumptions=[CRYPTO_NOTE])
+PROPERTIES["C08"] = dict(
+    quick=SELF + ["s13_dummy_record", "w2_server_login_start_unregistered", "w3_client_login_finish_default_ids", "c03_server_finish_exact", "d_cred_resp"],
+    thorough=["w2_server_login_start_unregistered_ids_ctx", "w2_server_login_start_external_key_unregistered", "w2_server_login_start_record"] + W3[1:],
+    assumptions=["'unpredictably' and 'the client always fails on a fake response' are probabilistic statements and are not decided; decided: the fake record (fresh masking key, zero envelope, fake key), the same evaluation function and code path as for a registered user, the error mapping to InvalidLoginError, and exactness of the server's final check"])
+PROPERTIES["C09"] = dict(
+    quick=SELF + ["s7_oprf_key_from_seed", "s4_server_reg_start_cred2", "s2_client_reg_start_pw2", "s9_seal_raw", "s10_expand_label_limits", "g3_x25519_derive"],
+    thorough=LEMMAS + S6[:2] + ["s7_oprf_key_from_seed_long_cred", "s8_mask_response", "s8_unmask_response", "s3_client_login_start_pw2", "s5_server_setup_new", "s13_dummy_record"]
+             + S9U + S9W + S10 + ["s11_derive_3dh_keys"] + W1 + W2 + W3 + D_QUICK,
+    assumptions=["conformance is to the reference model harness/incrate/spec.rs, typed in from RFC 9807 / RFC 9497 (labels, layouts, formulas), over the model suite; SHA-2 and curve arithmetic of the 20 real suites are pinned only by the repository's own RFC vectors"])
+PROPERTIES["C10"] = dict(
+    quick=SELF + D_QUICK + ["g1_x25519_sk_decode", "g1_x25519_sk_lengths", "g2_x25519_pk_roundtrip", "g2_x25519_pk_no_alias", "g2_x25519_pk_no_alias_canonical",
+                            "g4_ristretto_lengths_identity", "g5_p256_sk_decode", "g6_p256_pk_unknown_tags", "g6_p256_pk_tag_cases"],
+    thorough=D_ALL + ["g4_ristretto_sk_decode"],
+    assumptions=["opaque-ke's own slicing/length logic is decided on the model suite for all 11 decoders; the real groups' byte-level decoders are decided for Curve25519 (all inputs), ristretto255 scalars, P-256 scalars and tag bytes; point decompression (off-curve x, non-canonical ristretto encodings) needs a symbolic field square root and is not decided"])
+PROPERTIES["C11"] = dict(
+    quick=SELF + ["d_reg_req", "d_reg_resp", "d_reg_upload", "d_cred_req", "d_cred_resp", "d_setup", "d_client_reg", "d_client_login",
+                  "g1_x25519_sk_decode", "g2_x25519_pk_small_order", "g5_p256_sk_decode", "g6_p256_pk_unknown_tags", "g6_p256_pk_tag_cases"],
+    thorough=["g4_ristretto_sk_decode", "d_all_reg_resp", "d_all_client_reg", "d_all_setup"],
+    assumptions=["serde paths (bincode / JSON) are not encoded: the serde impls in keypair.rs call the same KeGroup decoders that are decided here (by inspection, not by the solver)",
+                 "off-curve / non-canonical point encodings need symbolic decompression: not decided"])
+PROPERTIES["C12"] = dict(
+    quick=SELF + ["c12_" + n for n in C12_SET],
+    thorough=["c12_" + n for n in C12_T],
+    assumptions=["panic-freedom is decided for the harnesses listed, with CBMC's memory-safety checks and Kani's Rust panic checks on, within their input bounds; a zero-entropy RNG that makes rejection-sampling loops spin is outside the RNG contract"])
+PROPERTIES["C13"] = dict(
+    quick=SELF + ["d_setup", "d_setup_xk", "d_server_registration", "d_client_reg", "d_client_login", "d_server_login", "s5_server_setup_new", "c03_server_finish_exact"],
+    thorough=["d_all_setup", "d_all_setup_xk", "d_all_client_reg", "d_all_client_login_lo", "d_all_client_login_hi", "d_all_server_login", "d_all_reg_upload_lo", "d_all_reg_upload_hi"] + W2[:1] + W3[:1],
+    assumptions=["native byte encodings only: decode(encode(x)) is structurally x and encode(decode(b)) == b for all five persisted types, and every step harness starts from deserialized bytes; bincode / serde_json themselves are not encoded"])
+PROPERTIES["C14"] = dict(
+    quick=SELF + ["s2_client_reg_start_pw0", "s2_client_reg_start_pw2", "s7_oprf_key_from_seed", "s7_oprf_key_from_seed_long_cred", "s4_server_reg_start_cred0", "s4_server_reg_start_cred2", "s6_pwd_key_len3"],
+    thorough=W1 + W2[:3] + ["s3_client_login_start_pw2"],
+    assumptions=[CRYPTO_NOTE, "obliviousness is decided as data flow: the blind is the tape value and occurs in no output other than request = blind*H(pw); the password-derived secrets equal a reference that does not mention the blind"])
+PROPERTIES["C15"] = dict(
+    quick=SELF + S6 + ["w1_client_reg_finish_default_ids", "w3_client_login_finish_default_ids"],
+    thorough=W1[1:] + W3[1:],
+    assumptions=["the Argon2 adapter (ksf.rs:38-47) is memory-hard by construction and is not encoded; the model KSF records its calls, argument and instance and returns a symbolic output or an error"])
+PROPERTIES["C16"] = dict(
+    quick=SELF + ["s9_seal_raw", "s9_open_raw_exact", "s9w_seal_client_only", "s9w_seal_server_only", "w1_client_reg_finish_default_ids", "w3_client_login_finish_default_ids"],
+    thorough=S9W + W1[1:] + W3[1:] + ["lemma_spec_honest_agreement"],
+    assumptions=[CRYPTO_NOTE, "'no secret appears verbatim in any message' is covered only in the sense that every message byte is a specified function (C09) none of which is the export key, session key or password"])
+PROPERTIES["C17"] = dict(
+    quick=SELF + ["s2_client_reg_start_pw2", "s3_client_login_start_pw2", "s5_server_setup_new", "s13_dummy_record", "s9w_seal_server_only", "w2_server_login_start_unregistered"],
+    thorough=["s2_client_reg_start_pw0", "s3_client_login_start_pw0", "s9w_seal_client_only", "s9w_seal_default_ids"] + S10[:2] + W2 + W1[:1],
+    assumptions=["determinism: symbolic execution has no entropy source other than the tape (an OS RNG call would surface as a missing foreign function); freshness: every random value equals a fixed function of its own tape segment, segments are disjoint and all drawn bytes are accounted for; statistical independence is not decided"])
+PROPERTIES["C18"] = dict(
+    quick=SELF + ["s4_server_reg_start_external_key", "s11_derive_3dh_keys_external", "w2_server_login_start_external_key", "d_setup_xk"],
+    thorough=["w2_server_login_start_external_key_unregistered", "d_all_setup_xk"],
+    assumptions=["the external key is the model MSecretKey (2-byte handle, call log, failure at the n-th call with a caller-chosen code)"])
+PROPERTIES["C19"] = dict(
+    quick=SELF + ["g1_x25519_sk_decode", "g1_x25519_sk_lengths", "g3_x25519_derive", "g2_x25519_pk_roundtrip", "g5_p256_sk_decode", "g4_ristretto_lengths_identity"],
+    thorough=["g4_ristretto_sk_decode", "g6_p256_pk_tag_cases", "s9_keys_internal"],
+    assumptions=["Diffie-Hellman symmetry and public-key consistency on the five real groups need >= 255 dependent symbolic field multiplications: outside reach, they stay with the repository's proptests; decided: key encodings round-trip, seeded derivation for Curve25519 == RFC 7748 clamp on all 2^256 seeds, scalar range checks"])
